@@ -3,12 +3,14 @@ CONSTANTS
   Srv = {1, 2}
   Names = {"a", "b"}
   Clients = {1}
-  MaxAtt = 3
+  MaxAtt = 2
   MaxCuts = 1
-  MaxProxies = 1
+  MaxProxies = 2
+  MaxDrops = 1
   Dev_NoCleanup = TRUE
   Dev_RouterFirst = TRUE
   Dev_NoLease = TRUE
+  Dev_StaleKept = TRUE
   Dev_StagingUnchecked = FALSE
   Dev_IdReuse = FALSE
   Dev_LookupStaged = FALSE
